@@ -397,6 +397,18 @@ func (co *c05Coord) serveServer(conn net.Conn, r *bufio.Reader, f []string) {
 		switch g[0] {
 		case "X":
 			co.mu.Lock()
+			if srv.state == 2 && srv.dec.ok && !co.finished {
+				// A server the runner rejected (TLS without certificate) that is slow to die: it stays alive
+				// until the runner visibly moves on (a further server is spawned: only possible if the
+				// permit was released before this process ended) or a grace period has passed.
+				seen := co.spawned
+				grace := time.AfterFunc(300*time.Millisecond, func() { co.mu.Lock(); co.cond.Broadcast(); co.mu.Unlock() })
+				until := time.Now().Add(300 * time.Millisecond)
+				for co.spawned == seen && time.Now().Before(until) && !co.finished {
+					co.cond.Wait()
+				}
+				grace.Stop()
+			}
 			if srv.state != 3 {
 				srv.state = 3
 				co.stopped++
